@@ -316,6 +316,16 @@ class Ctx:
             if k["property"] == self.prop or (self.prop == "AOFALL" and k["property"] in ("C07", "C08", "C16")):
                 tag = "reproduced in this run" if k["signature"] in seen_sigs else "not reproduced in this run"
                 lines.append(f"KNOWN-FINDING: property={self.prop} [{k['signature']}] {k.get('what', '')} ({tag})")
+        # coverage floor: a harness that silently does (almost) nothing must not read as "held on everything explored". The baseline is the
+        # smallest count a clean run of this check produced (tools/eval_baseline.json); a run that explores less than a quarter of it without
+        # any other complaint has lost its tie to the code (e.g. every call of the code under test fails at once)
+        try:
+            floor = json.load(open(os.path.join(VERIF, "tools", "eval_baseline.json"))).get(f"{self.prop}:{self.tier}")
+        except Exception:
+            floor = None
+        if floor and not self.broken and not self.violations and not os.environ.get("VERIF_N") and self.cov.get("evaluations", 0) * 4 < floor:
+            self.broken.append({"kind": "tie", "name": "coverage collapsed",
+                                "detail": f"this run performed {self.cov.get('evaluations', 0)} evaluations; a clean {self.tier} run of {self.prop} performs at least {floor}"})
         rc = 0
         if self.violations:
             rc = 1
